@@ -1,4 +1,5 @@
 """C08 — projection, viewport and camera map points where geometry says."""
+import json
 import os
 
 import vf
@@ -14,6 +15,21 @@ def run(tier):
     cases = os.path.join(d, "cases.ndjson")
     vf.run_harness(binpath, ["proj", "gen", "--seed", vf.seed(), "--tier", tier], stdout_path=cases)
     vf.exec_and_validate(chk, binpath, "proj", "TV_Proj", cases, jvms=8, what="observation")
+    # the first-person view transform under the other float backends (libm as tight as std; micromath loosely)
+    probe = os.path.join(vf.HARNESS, "floatprobe")
+    bk = os.path.join(d, "fpcam_backends.ndjson")
+    with open(bk, "w") as fw:
+        for name, feats in (("libm", ["libm"]), ("mm", ["mm"])):
+            vf._built.pop(("release", probe, tuple(feats)), None)
+            pb = vf.build_harness("release", crate=probe, features=feats, bin_name="floatprobe")
+            fw.write(vf.run_harness(pb, [name, vf.seed(), "fpcam" if tier == "quick" else "fpcam-thorough"]))
+    nrec, nev, badb = vf.validate_trace("TV_Proj", bk, jvms=2)
+    vf.log("[tv] first-person view transforms under the libm / mm backends: %d judged by TV_Proj: %d rejected" % (nrec, len(badb)))
+    chk.cov["traces_validated_against_impl"] += nrec
+    chk.cov["evaluations"] += nev
+    for b in badb:
+        chk.violation(b["key"], {"sub": "floatprobe-fpcam", "record": b["record"]},
+                      what="observation %s rejected by TV_Proj: %s" % (b["key"], json.dumps(b["record"])[:300]))
     chk.cov["distinct_nontrivial"] = chk.cov["traces_validated_against_impl"]
     chk.cov["rule"] = ("perspective: focal ratios {1/2,1,2} x aspects {1,4/3,1/2} x five near/far pairs x lattice points on, "
                        "just inside and just outside every face of the view volume, behind and on the eye plane, plus depth-"
@@ -26,3 +42,11 @@ def run(tier):
     chk.assumptions = ["lattice parameters; far/near up to 64 here (1000 in C02's float sweeps)",
                        "points within 1e-3 (relative) of a face of the view volume are not judged for inside/outside"]
     return chk.finish()
+
+
+def replay(path):
+    obj = json.load(open(path))
+    if obj.get("sub") == "floatprobe-fpcam":
+        # the "case" is a feature build of the probe: re-run the whole quick check
+        return run("quick")
+    return vf.replay("C08", path)
